@@ -60,8 +60,15 @@ def scale_to(scale_to, group,
                     .format(val)
                 )
         except lena.core.LenaValueError as err:
+            if data.scale() is None:
+                # scale was never set (a graph)
+                if not allow_unknown_scale:
+                    raise lena.core.LenaValueError(
+                        "could not determine the scale of {}"
+                        .format(val)
+                    )
             # scale is zero and can't be changed
-            if not allow_zero_scale:
+            elif not allow_zero_scale:
                 raise err
     return None
 
